@@ -47,6 +47,9 @@ def run(c):
     r6(c)
     r7(c)
     r8(c)
+    from rules import c01
+    c01.r5_disorder(c, rid="C03.R9")
+    r10(c)
 
 
 def r1(c, ops):
@@ -626,3 +629,27 @@ def r8(c):
     ok = isinstance(a0, ast.Name) and a0.id == df.args.args[1].arg
     c.check("C03.R8", ok, repo.loc(tm, calls[0]), "CommonFormatter.diff/as-given", f"the text is rendered from `{norm(a0)[:50]}`, not from the diff as given: re-sorted entries read back as another "
             "ordered tree (an added row of an ordered block is shown after the rows it precedes)", key_text="diff-as-given")
+
+
+def r10(c):
+    repo = c.repo
+    c.rule("C03.R10", "case is folded per rule, not per block: in rulebook.common._ignore_case a row is replaced by its lower-case form only under that row's own %ignore_case "
+                      "attribute (diff_pre[row]['match']['attrs']['ignore_case']) — folding every row of a block that merely contains one such rule makes case-only changes of "
+                      "the other rows (descriptions, names, passwords) disappear from the diff and reports rows that exist in neither input")
+    m = repo.module(COMMON)
+    fn = repo.func(COMMON, "_ignore_case")
+    c.count("functions")
+    gm = GuardMap(fn)
+    lows = [x for x in calls_in(fn) if isinstance(x.func, ast.Attribute) and x.func.attr in ("lower", "casefold", "upper") and not x.args]
+    if not lows:
+        raise AnchorError("_ignore_case: the case folding of a row not found")
+    for x in lows:
+        R = norm(x.func.value)
+
+        def ren(s_, R=R):
+            t = s_.replace('"', "'").replace(" ", "")
+            return "row_ignore_case" if t in (f"diff_pre[{R}]['match']['attrs']['ignore_case']", f"diff_pre[{R}]['match']['attrs'].get('ignore_case')",
+                                               f"diff_pre[{R}]['match']['attrs'].get('ignore_case',False)") else s_
+        f = gm.formula(x, G.GuardEnv(rename=ren), alias=True)
+        c.check("C03.R10", G.implies(f, G.Atom("row_ignore_case")), repo.loc(m, x), f"_ignore_case/{norm(x)}", f"`{norm(x)}` is applied under {G.show(f)}, which does not imply that the rule of this very "
+                "row asks for it", key_text="fold-unguarded")
